@@ -24,8 +24,8 @@ from ..drive import nav
 PID = "C05"
 THEOREMS = ["TWellFormed", "TParentChain", "TParentOfType", "TChildren", "TNoRefs", "TOfType"]
 # deviation clause -> theorem it must break (rule 6: the module is not vacuous)
-DEV_BREAKS = {"FollowRefs": "TNoRefs", "AlwaysChildrenFirst": "TChildren",
-              "ParentOfTypeFromSelf": "TParentOfType", "GetModelThroughNoneParent": "TParentChain"}
+DEV_BREAKS = {"FollowRefs": ("TChildren", "TNoRefs"), "AlwaysChildrenFirst": ("TChildren",),
+              "ParentOfTypeFromSelf": ("TParentOfType",), "GetModelThroughNoneParent": ("TParentChain",)}
 USER_CLASSES = ["Pkg", "Leaf"]
 
 
@@ -266,7 +266,7 @@ def _vacuity(rep, env, devs_to_try):
         e["VT_DEV"] = d
         r = nav.check_theorems("MC_Nav_C05.cfg", e)
         out[d] = r.violated
-        if r.violated != thm:
+        if r.violated not in thm:
             raise tlc.MachineryError(f"Nav.tla with Dev={{{d}}}: expected theorem {thm} to fail, TLC says "
                                      f"violated={r.violated} error={r.error}")
     return out
